@@ -14,7 +14,7 @@ PROPS = {
         "assumptions": [
             "file paths and workspace roots are normalised (components separated by single '/', no '.'/'..' components)",
             "moduleMap rules are of the form ^<literal>(.*)<literal>$ -> <literal>${1}<literal>; arbitrary user regexes are outside the model",
-            "strict.requirePath (fuzzy on/off), patterns and moduleMap are constant over a history (a config change is followed by a reindex, C09)",
+            "a configuration change (update_config: extensions / requirePattern -> patterns, moduleMap, strict.requirePath) is an operation of the model and of the generated histories; the refinement to the spec resolver is claimed for histories in which every configuration change is followed by a reindex (clear + re-add), as the server does",
         ],
     },
 }
@@ -49,7 +49,7 @@ PROPS.update({
     "C09": {
         "harness": "vh-index",
         "gen": ["index_fields"],
-        "level_text": "T-src bridge: the field list of DbIndex and of every index struct, the fields each LuaIndex::clear resets and the indexes DbIndex::clear / remove visit are extracted from the source on every run (Gen/IndexFields.lean); kernel-checked: every DbIndex field except vfs/emmyrc is cleared, every field of every index is reset by its clear except a listed set of configuration fields (and JsonSchemaIndex::schema_files, whose clear is a TODO in the source), and the models' clear empties a map iff the source resets its field, so clear_is_new / reindex_eq_fresh / no-stale-entry hold only while the source keeps clearing every modelled field. Beyond that the property is carried by the tie and the oracle: the correspondence runs execute the real LuaModuleIndex::clear / DbIndex::clear in the middle of generated histories and compare every entry count and lookup with the model afterwards, and the oracle runs histories of update / re-submit / remove / close / reindex on the real EmmyLuaAnalysis, reindexes, and compares the full observable dump and every entry count of DbIndex::verif_report (which destructures DbIndex and every index exhaustively, so a field added later breaks the hook build until it is counted) with a fresh analysis of the surviving files loaded in file-id order.",
+        "level_text": "T-src bridge: the field list of DbIndex and of every index struct, the fields each LuaIndex::clear resets and the indexes DbIndex::clear / remove visit are extracted from the source on every run (Gen/IndexFields.lean); kernel-checked: every DbIndex field except vfs/emmyrc is cleared, every field of every index is reset by its clear except a listed set of configuration fields (and JsonSchemaIndex::schema_files, whose clear is a TODO in the source), and the models' clear empties a map iff the source resets its field, so clear_is_new / reindex_eq_fresh / no-stale-entry hold only while the source keeps clearing every modelled field. Also proved: after any history with update_config steps, clear + the live files' adds under the final configuration = a fresh index under that configuration (C09_config_then_reindex_eq_fresh). Beyond that the property is carried by the tie and the oracle (histories include config reloads: moduleMap non-empty/empty/other, runtime.extensions, requirePattern, requireLikeFunction, strict.requirePath, workspace root and library lists; the fresh analysis runs under the final configuration): the correspondence runs execute the real LuaModuleIndex::clear / DbIndex::clear in the middle of generated histories and compare every entry count and lookup with the model afterwards, and the oracle runs histories of update / re-submit / remove / close / reindex on the real EmmyLuaAnalysis, reindexes, and compares the full observable dump and every entry count of DbIndex::verif_report (which destructures DbIndex and every index exhaustively, so a field added later breaks the hook build until it is counted) with a fresh analysis of the surviving files loaded in file-id order.",
         "level_note": "Trusted: Lean kernel, harness, correspondence runs, the verif_report hook. The theorems are thin by construction; a clear() that forgets a field is caught by the oracle's count comparison (e.g. the fixed LuaMemberIndex::member_current_owner) and, for modelled maps, by the tie. The Vfs path<->id maps keep closed files and are excluded from the count comparison.",
         "trusted_base": LIFE_TB,
         "assumptions": LIFE_ASSUME,
